@@ -25,7 +25,7 @@ pub fn def() -> PropDef {
     PropDef {
         id: "C06",
         level: "fault_enumeration",
-        rule: "cases = (input bytes, parser options, API in {value, datum, value_iter, datum_iter}, source/schedule in {&str, &[u8], stream x {1-byte, random, whole, BufReader(1,2,3,8)} x Interrupted injection}) for the agreement clause, and (input, options, API, fault offset k) with a hard error injected at EVERY offset k in 0..=len for the fault clause (exhaustive per input). inputs: printer output in both dialects, layout-printer output, token soup, mutated and UTF-8-corrupted text. non-trivial = one faulted or scheduled run judged against the twin; distinct = hash of (input, options, api, schedule or offset)",
+        rule: "cases = (input bytes, parser options, API in {value, datum, value_iter, datum_iter}, source/schedule in {&str, &[u8], stream x {1-byte, random, whole, BufReader(1,2,3,8)} x Interrupted injection}) for the agreement clause, and (input, options, API, fault offset k) with a hard error (of 8 rotating io::ErrorKinds, UnexpectedEof included) injected at EVERY offset k in 0..=len for the fault clause (exhaustive per input). inputs: printer output in both dialects, layout-printer output, token soup, mutated and UTF-8-corrupted text. non-trivial = one faulted or scheduled run judged against the twin; distinct = hash of (input, options, api, schedule or offset)",
         assumptions: &[
             "the parser is deterministic on identical byte prefixes (the twin-run oracle relies on it)",
             "std::io::Bytes issues one read call per byte request and retries Interrupted",
@@ -248,7 +248,9 @@ fn faults(rep: &mut Report, input: &[u8], q: &Q, _rng: &mut Rng, src_tag: &str) 
         for k in 0..=input.len() {
             rep.eval();
             rep.distinct(hash2(base, hash2(api as u64, k as u64)));
-            let fr = FaultReader::new(input, k);
+            let kind = FAULT_KINDS[(k + api as usize) % FAULT_KINDS.len()];
+            rep.count(&format!("fault-kind:{:?}", kind));
+            let fr = FaultReader::with_kind(input, k, kind);
             let errs = fr.errors_returned.clone();
             let got = run_api(api, fr, o, || {});
             // expectation
@@ -321,12 +323,12 @@ fn faults(rep: &mut Report, input: &[u8], q: &Q, _rng: &mut Rng, src_tag: &str) 
             }
             // conversion to io::Error returns the original error
             if expect_io && got.last().map_or(false, |l| l.is_injected_io()) {
-                let fr = FaultReader::new(input, k);
+                let fr = FaultReader::with_kind(input, k, kind);
                 if let Api::Value = api {
                     if let Err(e) = lexpr::from_reader_custom(fr, o) {
                         let ioe: std::io::Error = e.into();
                         rep.eval();
-                        if ioe.kind() != std::io::ErrorKind::ConnectionReset || !ioe.to_string().contains(MARKER) {
+                        if ioe.kind() != kind || !ioe.to_string().contains(MARKER) {
                             rep.violation("fault", "C06:fault:io-conversion-loses-error".into(), format!("io::Error::from(parse error) is {:?}, not the injected error", ioe), json!({"input_hex": hex(input), "offset": k}));
                             return;
                         }
